@@ -24,7 +24,8 @@ RULE = ("cases: single (base, mask) objects incl. all contiguous masks, complete
         "judged = monitor evaluations (every return of ipnets()/derived views + every accept/reject decision); "
         "distinct non-trivial = distinct (kind, k, trailing-run length, history shape) with k>0 or a reassignment"
         " Round 4: factories called with explicit limits 0..30 (incl. /0 and the zero netmask), limit enforced at k = L-1, L, L+1."
-        " Round 5: limits configured on Ace/Acl (incl. 0, k-1); histories starting from a group address with members.")
+        " Round 5: limits configured on Ace/Acl (incl. 0, k-1); histories starting from a group address with members."
+        " Rounds 6-7: subnet-mask-shaped wildcard masks; group limits applied to members given as strings.")
 ASSUMPTIONS = ["object state after a rejected line assignment is not judged (no property states atomicity)",
                "bool limits are ints in Python and are not judged"]
 
